@@ -90,7 +90,7 @@ Section P.
       + apply run_tx_some in R as (l1 & ev & _ & F & _); [|exact O]. unfold gov_withdraw_refund in F.
         destruct (negb _); [discriminate|]. cbn [w_gov] in F.
         destruct (refund_of _ _ _ _ =? 0); [inversion F; subst; cbn; auto|].
-        destruct (negb _); [discriminate|]. destruct (transfer _ _ _ _ _); inversion F; subst. cbn. auto.
+        destruct (transfer _ _ _ _ _); inversion F; subst. cbn. auto.
       + apply run_tx_fail in R; [|exact O]. subst. auto.
     - destruct (find_pending id (w_pend w)) as [p|]; [|cbn; auto]. destruct (gp_stage p); [|cbn; auto].
       destruct (if ok then _ else _); cbn; auto.
@@ -183,7 +183,7 @@ Section P.
       + apply run_tx_some in R as (l1 & ev & _ & F & _); [|exact O]. unfold gov_withdraw_refund in F.
         destruct (negb _); [discriminate|]. cbn [w_gov] in F.
         destruct (refund_of _ _ _ _ =? 0); [inversion F; subst; cbn; auto|].
-        destruct (negb _); [discriminate|]. destruct (transfer _ _ _ _ _); inversion F; subst. cbn. auto.
+        destruct (transfer _ _ _ _ _); inversion F; subst. cbn. auto.
       + apply run_tx_fail in R; [|exact O]. subst. auto.
     - destruct (find_pending id (w_pend w)) as [p|]; [|cbn; auto]. destruct (gp_stage p); [|cbn; auto].
       destruct (if ok then _ else _); cbn; auto.
@@ -237,7 +237,7 @@ Section P.
       + apply run_tx_some in R as (l1 & ev & _ & F & _); [|exact O]. unfold gov_withdraw_refund in F.
         destruct (negb _); [discriminate|]. cbn [w_gov] in F.
         destruct (refund_of _ _ _ _ =? 0); [inversion F; subst; reflexivity|].
-        destruct (negb _); [discriminate|]. destruct (transfer _ _ _ _ _); inversion F; subst. reflexivity.
+        destruct (transfer _ _ _ _ _); inversion F; subst. reflexivity.
       + apply run_tx_fail in R; [|exact O]. subst. reflexivity.
     - destruct (find_pending id (w_pend w)) as [p|]; [|reflexivity]. destruct (gp_stage p); [|reflexivity].
       destruct (if ok then _ else _); reflexivity.
@@ -268,7 +268,7 @@ Section P.
     refund_of (w_gov w') (x_caller c) tok nonce = 0 /\
     (forall u t n, (u, (t, n)) <> (x_caller c, (tok, nonce)) -> refund_of (w_gov w') u t n = refund_of (w_gov w) u t n) /\
     (v = 0 -> w_led w' = w_led w) /\
-    (v <> 0 -> transfer (w_led w) (x_self c) (x_caller c) tok v = Some (w_led w')) /\
+    (v <> 0 -> transfer (w_led w) (x_self c) (x_caller c) (ltok tok nonce) v = Some (w_led w')) /\
     tables w' = tables w.
   Proof.
     unfold gov_withdraw_refund. cbv zeta. destruct (negb _); [discriminate|].
@@ -283,8 +283,7 @@ Section P.
     destruct (N.eqb_spec v 0) as [Z|NZ].
     - intro E; inversion E; subst. cbn [w_gov w_led]. destruct (K _ eq_refl) as [K1 K2].
       split; [exact K1|]. split; [exact K2|]. split; [reflexivity|]. split; [intro; contradiction | reflexivity].
-    - destruct (negb (nonce =? 0)); [discriminate|].
-      destruct (transfer (w_led w) (x_self c) (x_caller c) tok v) eqn:T; [|discriminate].
+    - destruct (transfer (w_led w) (x_self c) (x_caller c) (ltok tok nonce) v) eqn:T; [|discriminate].
       intro E; inversion E; subst. cbn [w_gov w_led]. destruct (K _ eq_refl) as [K1 K2].
       split; [exact K1|]. split; [exact K2|]. split; [intro; contradiction|]. split; [reflexivity | reflexivity].
   Qed.
